@@ -9,7 +9,11 @@ import "errors"
 // closure after source close or cancellation, one error result for a failing
 // request, and no library goroutine left blocked after cancellation.
 func ZZ_C15_subscription() {
-	kind := zzChoice("kind", 5) // 0 ok, 1 syntax error, 2 invalid, 3 subscribe error, 4 non-channel source
+	// 0 ok, 1 syntax error, 2 invalid, 3 subscribe error, 4 non-channel source,
+	// 5 the subscribe function panics with an error, 6 with a string, 7 returns nil
+	// 8 two root fields with different sources: which stream is subscribed to
+	//   must not depend on map iteration order
+	kind := zzChoice("kind", 9)
 	src := make(chan interface{})
 	subscription := NewObject(ObjectConfig{Name: "Subscription", Fields: Fields{
 		"tick": &Field{Type: Int,
@@ -19,6 +23,12 @@ func ZZ_C15_subscription() {
 					return nil, errors.New("cannot subscribe")
 				case 4:
 					return 5, nil
+				case 5:
+					panic(errors.New("subscribe boom"))
+				case 6:
+					panic("subscribe boom")
+				case 7:
+					return nil, nil
 				}
 				return src, nil
 			},
@@ -53,8 +63,50 @@ func ZZ_C15_subscription() {
 			zzAssert(ok && m["tick"] == payload, "result does not carry the event's payload")
 		}
 	}
+	if kind == 8 {
+		which := func() string {
+			srcA, srcB := make(chan interface{}, 1), make(chan interface{}, 1)
+			srcA <- 1
+			srcB <- 2
+			sub2 := NewObject(ObjectConfig{Name: "Subscription", Fields: Fields{
+				"ta": &Field{Type: Int, Subscribe: func(p ResolveParams) (interface{}, error) { return srcA, nil },
+					Resolve: func(p ResolveParams) (interface{}, error) { return p.Source, nil }},
+				"tb": &Field{Type: Int, Subscribe: func(p ResolveParams) (interface{}, error) { return srcB, nil },
+					Resolve: func(p ResolveParams) (interface{}, error) { return p.Source, nil }},
+			}})
+			s2, err := NewSchema(SchemaConfig{Query: q, Subscription: sub2})
+			zzAssert(err == nil, "schema")
+			c := &zzCancelCtx{done: make(chan struct{})}
+			ch := Subscribe(Params{Schema: s2, RequestString: "subscription { tb ta }", Context: c})
+			r := <-ch
+			c.cancel()
+			out := "?"
+			if m, ok := r.Data.(map[string]interface{}); ok {
+				if v, ok := m["ta"].(int); ok {
+					out = zzItoa(v)
+				}
+			}
+			return out
+		}
+		base := which()
+		zzMapOrder(true, zzParam("D", 1))
+		again := which()
+		zzMapOrder(false, 0)
+		zzAssert(base == again, "the stream a subscription with two root fields subscribes to depends on map iteration order")
+		zzCover("oneshot")
+		return
+	}
 	zzSched(true, zzParam("P", 1))
 	if kind != 0 {
+		if zzChoice("abandon", 2) == 1 {
+			// the consumer cancels and never reads the result
+			ctx.cancel()
+			Subscribe(Params{Schema: schema, RequestString: req, Context: ctx})
+			zzSched(false, 0)
+			zzAssert(zzQuiesce() == 0, "after cancellation a goroutine started for the subscription is still blocked")
+			zzCover("oneshot")
+			return
+		}
 		ch := Subscribe(Params{Schema: schema, RequestString: req, Context: ctx})
 		r, ok := <-ch
 		zzAssert(ok && r != nil, "a failing request must deliver one result")
@@ -72,7 +124,12 @@ func ZZ_C15_subscription() {
 	}
 	n := zzChoice("events", zzParam("MAXEV", 2)+1)
 	payloads := make([]int, n)
+	isNil := make([]bool, n) // a nil event is an event like any other (the resolver sees no int: tick = 0)
 	for i := range payloads {
+		if zzChoice("nilev"+zzItoa(i), 2) == 1 {
+			isNil[i] = true
+			continue
+		}
 		payloads[i] = zzInt("payload"+zzItoa(i), -2, 2)
 	}
 	closeSrc := zzChoice("close", 2) == 1
@@ -82,9 +139,13 @@ func ZZ_C15_subscription() {
 		ctx.cancel()
 	}
 	go func() {
-		for _, p := range payloads {
+		for i, p := range payloads {
+			var ev interface{} = p
+			if isNil[i] {
+				ev = nil
+			}
 			select {
-			case src <- p:
+			case src <- ev:
 			case <-ctx.done:
 				return
 			}
